@@ -21,7 +21,7 @@
    powspace / norm_p (libm pow) -- tied by tolerance and searched on every run. *)
 From Coq Require Import List Arith Reals Permutation Sorted QArith Qcanon.
 From OV Require Import Base.Panic Base.Arith Model.Complex Model.Vector Model.VecOps
-                       Proofs.Vector Proofs.VectorR Inst.QcInst.
+                       Proofs.Vector Proofs.VectorR Proofs.VectorQc Inst.QcInst.
 Import ListNotations.
 Local Open Scope nat_scope.
 
@@ -39,6 +39,20 @@ Proof. intros A sorter Hs v o. exact (step_refines sorter Hs v o). Qed.
 Check vec_step_refines : forall (A : Arith) (sorter : list A -> list A),
   sorter_ok sorter -> forall (v : list A) (o : vop A), step_spec v o (vstep sorter v o).
 Print Assumptions vec_step_refines.
+
+(* the sorter with which the model is RUN in the correspondence check (insertion sort on the element order)
+   meets the contract whenever the order is total -- so at Qc the history theorem holds outright *)
+Theorem isort_meets_contract : forall (A : Arith), (forall x y : A, leb x y = true \/ leb y x = true) ->
+  sorter_ok (isort (A := A) leb).
+Proof. intros A Htot. exact (isort_sorter_ok Htot). Qed.
+Check isort_meets_contract : forall (A : Arith), (forall x y : A, leb x y = true \/ leb y x = true) ->
+  sorter_ok (isort (A := A) leb).
+Print Assumptions isort_meets_contract.
+
+Theorem vec_run_refines_Qc : forall (ops : list (vop AQ)) (v : list AQ), run_spec (isort (A := AQ) leb) v ops.
+Proof. intros ops v. exact (vec_run_refines_Qc_lemma ops v). Qed.
+Check vec_run_refines_Qc : forall (ops : list (vop AQ)) (v : list AQ), run_spec (isort (A := AQ) leb) v ops.
+Print Assumptions vec_run_refines_Qc.
 
 (* non-vacuity: the sorter used to RUN the model (insertion sort on Qc's order) meets the contract on a concrete
    list, and a concrete history runs to the expected state through a panic (pop on empty is skipped) *)
